@@ -1,6 +1,7 @@
 package main
 
 import (
+	"bytes"
 	"fmt"
 	"go/types"
 	"math"
@@ -834,4 +835,144 @@ func mAppendBytes(dst mv, add []byte) mv {
 	out := make([]mv, len(base), nc)
 	copy(out, base)
 	return mSlice{append(out, vals...)}
+}
+
+// pureStdPkgs: standard-library packages made of plain Go without effects outside their arguments; a
+// function of these that has no model above is evaluated from its own SSA body.
+var pureStdPkgs = map[string]bool{
+	"bytes": true, "strings": true, "slices": true, "maps": true, "sort": true, "cmp": true,
+	"unicode": true, "unicode/utf8": true, "unicode/utf16": true, "container/list": true,
+	"math/bits": true, "internal/stringslite": true, "internal/bytealg": true, "iter": true,
+}
+
+// concreteArgs: no symbol anywhere in the arguments (a body evaluated on a symbol would only branch on it).
+func concreteArgs(args []mv) bool {
+	var ok func(v mv, depth int) bool
+	ok = func(v mv, depth int) bool {
+		if depth > 4 {
+			return true
+		}
+		switch x := v.(type) {
+		case *mSym, *mCat:
+			return false
+		case mSlice:
+			for _, e := range x.arr {
+				if !ok(e, depth+1) {
+					return false
+				}
+			}
+		case mArray:
+			for _, e := range x {
+				if !ok(e, depth+1) {
+					return false
+				}
+			}
+		case mStruct:
+			for _, e := range x {
+				if !ok(e, depth+1) {
+					return false
+				}
+			}
+		case mTuple:
+			for _, e := range x {
+				if !ok(e, depth+1) {
+					return false
+				}
+			}
+		case mIface:
+			return ok(x.v, depth+1)
+		case *mv:
+			if x != nil {
+				return ok(*x, depth+1)
+			}
+		}
+		return true
+	}
+	for _, a := range args {
+		if !ok(a, 0) {
+			return false
+		}
+	}
+	return true
+}
+
+func mByteSlice(bs []byte) mv {
+	if bs == nil {
+		return mNil
+	}
+	arr := make([]mv, len(bs))
+	for i, b := range bs {
+		arr[i] = int64(b)
+	}
+	return mSlice{arr}
+}
+
+// bytesOrString: a concrete []byte or string argument as bytes.
+func bytesOrString(v mv) ([]byte, bool) {
+	if s, ok := v.(string); ok {
+		return []byte(s), true
+	}
+	return mBytes(v)
+}
+
+// stdAsmModel: the leaves of the standard library that are written in assembly or need the runtime
+// (internal/bytealg and the bodiless parts of bytes / strings), on concrete arguments.
+func (m *mach) stdAsmModel(fn *ssa.Function, args []mv) (mv, bool) {
+	if fn.Pkg == nil {
+		return nil, false
+	}
+	path := fn.Pkg.Pkg.Path()
+	if path != "internal/bytealg" && !(fn.Blocks == nil && (path == "bytes" || path == "strings")) {
+		return nil, false
+	}
+	var bs [][]byte
+	var ns []int64
+	for _, a := range args {
+		if n, ok := a.(int64); ok {
+			ns = append(ns, n)
+			continue
+		}
+		b, ok := bytesOrString(a)
+		if !ok {
+			return nil, false
+		}
+		bs = append(bs, b)
+	}
+	switch fn.Name() {
+	case "IndexByte", "IndexByteString":
+		if len(bs) == 1 && len(ns) == 1 {
+			return int64(bytes.IndexByte(bs[0], byte(ns[0]))), true
+		}
+	case "LastIndexByte", "LastIndexByteString":
+		if len(bs) == 1 && len(ns) == 1 {
+			return int64(bytes.LastIndexByte(bs[0], byte(ns[0]))), true
+		}
+	case "Count", "CountString":
+		if len(bs) == 1 && len(ns) == 1 {
+			return int64(bytes.Count(bs[0], []byte{byte(ns[0])})), true
+		}
+	case "Equal":
+		if len(bs) == 2 {
+			return bytes.Equal(bs[0], bs[1]), true
+		}
+	case "Compare", "CompareString":
+		if len(bs) == 2 {
+			return int64(bytes.Compare(bs[0], bs[1])), true
+		}
+	case "Index", "IndexString":
+		if len(bs) == 2 {
+			return int64(bytes.Index(bs[0], bs[1])), true
+		}
+	case "Cutover":
+		if len(ns) == 1 {
+			return (ns[0] + 16) / 8, true
+		}
+	case "HashStr", "HashStrRev", "IndexRabinKarp", "LastIndexRabinKarp":
+		return nil, false // plain Go: evaluated from the body
+	case "MakeNoZero":
+		if len(ns) == 1 && ns[0] >= 0 && ns[0] < 1<<20 {
+			return mByteSlice(make([]byte, ns[0])), true
+		}
+	}
+	return nil, false
 }
